@@ -177,8 +177,16 @@ func main() {
 					out := filepath.Join(work, fmt.Sprintf("out-%s-%d.jsonl", label, w))
 					prog := filepath.Join(work, fmt.Sprintf("prog-%s-%d", label, w))
 					os.Remove(prog)
-					args := []string{"-profile", cfg.profile, "-seed", fmt.Sprint(seed), "-from", fmt.Sprint(from), "-n", fmt.Sprint(left),
+					cold := strings.HasPrefix(label, "cold")
+					nruns := left
+					if cold {
+						nruns = 1 // one program per process: what matters is the first use
+					}
+					args := []string{"-profile", cfg.profile, "-seed", fmt.Sprint(seed), "-from", fmt.Sprint(from), "-n", fmt.Sprint(nruns),
 						"-stride", fmt.Sprint(nw), "-out", out, "-budget", fmt.Sprint(budget), "-deadline", deadline.String()}
+					if cold {
+						args = append(args, "-cold")
+					}
 					if race {
 						args = append(args, "-progress", prog)
 					}
@@ -226,6 +234,11 @@ func main() {
 						}
 					}
 					mu.Unlock()
+					if err == nil && cold {
+						from += uint64(nw)
+						left--
+						continue
+					}
 					if err == nil {
 						return
 					}
@@ -294,6 +307,7 @@ func main() {
 	// package-level state the pinned tree does not have.
 	var focusKinds, newState []string
 	focusRuns := 0
+	coldRuns := 0
 	if id == "C20" {
 		focusKinds, newState = sim.FocusKinds(filepath.Join(work, "lib", "verif_state.json"))
 	}
@@ -303,6 +317,10 @@ func main() {
 		fk := strings.Join(focusKinds, ",")
 		runBatch("worker", n, 1<<42, false, "focus", "-focus", fk, "-epochkeys")
 		runBatch("worker", n, 1<<42, false, "focusperm", "-focus", fk, "-epochkeys", "-permute")
+		// first use under concurrency: one focus program per fresh process,
+		// its concurrent pass before anything has touched the library
+		runBatch("worker", n/8, 1<<44, false, "coldfocus", "-focus", fk)
+		coldRuns = n / 8
 		if cfg.race > 0 {
 			// first-use effects (lazy initialisation) are visible once per
 			// process: many short-lived race processes on the focus kinds
@@ -334,6 +352,7 @@ func main() {
 	focusInfo["new_package_level_state"] = newState
 	focusInfo["focus_operation_kinds"] = focusKinds
 	focusInfo["focus_runs_compared_across_two_fresh_processes"] = focusRuns
+	focusInfo["cold_start_runs_one_per_fresh_process"] = coldRuns
 	focusInfo["note"] = "only exercised when the tree declares package-level variables the pinned tree does not have; then focus programs (same calls under different DefaultRoundingMode values in consecutive epochs, few operands) run in two fresh processes with the epochs in opposite order and every epoch's results must agree"
 	if harnessTrouble > 0 {
 		for _, t := range trouble {
